@@ -1,6 +1,48 @@
+import CB.Driver.C01
+import CB.Driver.C02
+import CB.Driver.C03
 import CB.Driver.C04
+import CB.Driver.C05
+import CB.Driver.C06
+import CB.Driver.C07
+import CB.Driver.C08
+import CB.Driver.C09
+import CB.Driver.C10
+import CB.Driver.C11
+import CB.Driver.C12
+import CB.Driver.C13
+import CB.Driver.C14
+import CB.Driver.C15
+import CB.Driver.C16
+import CB.Driver.C17
+import CB.Driver.C18
+import CB.Driver.C19
+import CB.Driver.C20
 namespace CB
-def dispatchers : List Dispatch := [dispatchC04]
+
+/-- route by the op-name prefix (`c04.u.adc` → `dispatchC04`) -/
 def dispatchAll : Dispatch := fun op args =>
-  dispatchers.foldl (fun acc d => match acc with | some r => some r | none => d op args) none
+  match (op.splitOn ".").head! with
+  | "c01" => dispatchC01 op args
+  | "c02" => dispatchC02 op args
+  | "c03" => dispatchC03 op args
+  | "c04" => dispatchC04 op args
+  | "c05" => dispatchC05 op args
+  | "c06" => dispatchC06 op args
+  | "c07" => dispatchC07 op args
+  | "c08" => dispatchC08 op args
+  | "c09" => dispatchC09 op args
+  | "c10" => dispatchC10 op args
+  | "c11" => dispatchC11 op args
+  | "c12" => dispatchC12 op args
+  | "c13" => dispatchC13 op args
+  | "c14" => dispatchC14 op args
+  | "c15" => dispatchC15 op args
+  | "c16" => dispatchC16 op args
+  | "c17" => dispatchC17 op args
+  | "c18" => dispatchC18 op args
+  | "c19" => dispatchC19 op args
+  | "c20" => dispatchC20 op args
+  | _ => none
+
 end CB
